@@ -21,8 +21,8 @@ ASSUMPTIONS = [
     "FullDecider(m) used directly ends branches at m-1 (pinned by test_full); only depth <= m is required of it here",
 ]
 PLAN = {
-    "quick": {"shards": 8, "shard_timeout": 400, "case_timeout": 25, "grammars": 36, "max_case_timeouts": 3},
-    "thorough": {"shards": 16, "shard_timeout": 1800, "case_timeout": 40, "grammars": 500, "max_case_timeouts": 20},
+    "quick": {"shards": 8, "shard_timeout": 400, "case_timeout": 25, "grammars": 100, "max_case_timeouts": 6},
+    "thorough": {"shards": 16, "shard_timeout": 3600, "case_timeout": 40, "grammars": 5000, "max_case_timeouts": 80},
 }
 THRESHOLDS = {
     "quick": {"programs_depth_checked": 3000, "frontier_programs": 500, "infeasible_probes": 40, "after_variation": 300, "via:ge": 100, "via:sge": 100, "via:dsge": 100, "via:direct": 300, "via:fullinit": 50, "create_node_entries_seen": 1000},
